@@ -55,7 +55,7 @@ Value& RSUBSTRExpression::value(Context & ctx) const
     if (val.lvalue())
       return ctx.allocate(Value(Value::type_literal));
     val.swap(Value(Value::type_literal));
-    return val;
+    return handback(ctx, val);
   case Type::LITERAL:
   {
     Value& a1 = _args[1]->value(ctx);
@@ -63,31 +63,31 @@ Value& RSUBSTRExpression::value(Context & ctx) const
     switch (a1.type().major())
     {
     case Type::NO_TYPE:
-      return val;
+      return handback(ctx, val);
     case Type::INTEGER:
       if (a1.isNull())
-        return val;
+        return handback(ctx, val);
       b = *a1.integer();
       break;
     case Type::NUMERIC:
       if (a1.isNull())
-        return val;
+        return handback(ctx, val);
       b = clamp_to_integer(*a1.numeric());
       break;
     default:
       throw RuntimeError(EXC_RT_FUNC_ARG_TYPE_S, KEYWORDS[oper]);
     }
     if (val.isNull())
-      return val;
+      return handback(ctx, val);
     int64_t a, c;
     c = val.literal()->size();
     if (c == 0)
-      return val;
+      return handback(ctx, val);
     a = std::max<int64_t>(std::min<int64_t>(b, c), 0L);
     if (val.lvalue())
       return ctx.allocate(Value(new Literal(val.literal()->substr(c - a))));
     val.literal()->assign(val.literal()->substr(c - a));
-    return val;
+    return handback(ctx, val);
   }
   default:
     throw RuntimeError(EXC_RT_FUNC_ARG_TYPE_S, KEYWORDS[oper]);
